@@ -311,7 +311,10 @@ def drops(F, R):
                 'Drop for %s can return without setting the removal flag' % h, detail='the flag is set on every path of drop()', where=b.file)
         ob = F.body(owner_osp)
         if R.check(ob is not None, 'B.C08.drop', 'anchor:pred:' + h, '%s not found' % owner_osp):
-            hit = [c for c in F.closures_of(ob.path) if any((callee_path(t) or '').endswith(pred) or pred in (callee_path(t) or '') for _, t in c.calls())]
+            # the predicate: a closure of the function, or a function item handed over by name
+            cands = list(F.closures_of(ob.path)) + [fb for fb in (F.body(a['fn']) for _, t in ob.calls() for a in t['args'] if isinstance(a, dict) and a.get('fn'))
+                                                    if fb is not None and fb.krate == 'kira']
+            hit = [c for c in cands if any((callee_path(t) or '').endswith(pred) or pred in (callee_path(t) or '') for _, t in c.calls())]
             R.check(bool(hit), 'B.C08.drop', 'pred:' + h, '%s does not remove with a predicate reading the flag (%s)' % (owner_osp, pred),
                     detail={'predicate': pred})
             # ... and nothing else: the predicate IS the flag (a budget such as "at most four removals per callback" leaves
